@@ -100,8 +100,9 @@ def run_lines(exe, lines, timeout=600, env=None, args=()):
     return p.stdout.decode(errors="replace").splitlines(), p.returncode, p.stderr.decode(errors="replace")
 
 
-def driver_path():
-    return os.path.join(LEAN, ".lake", "build", "bin", "driver")
+def driver_path(name):
+    """path of the compiled model driver `drv_<pid>` (lean_exe in lean/lakefile.toml)"""
+    return os.path.join(LEAN, ".lake", "build", "bin", name)
 
 
 # ------------------------------------------------------------------------------------------
@@ -118,19 +119,39 @@ def strip_lean_comments(text):
     return text
 
 
-def scan_forbidden(paths=None):
-    """textual scan of every Lean source of the library for sorry/admit/axiom/native_decide/…"""
-    hits = []
-    root = os.path.join(LEAN)
-    for d, _, fs in os.walk(root):
-        if ".lake" in d:
+def import_closure(module):
+    """local (SimuVerif.* / Driver.*) modules reachable from `module` through import lines"""
+    seen, todo = [], [module]
+    while todo:
+        m = todo.pop()
+        if m in seen:
             continue
-        for f in fs:
-            if f.endswith(".lean"):
-                fp = os.path.join(d, f)
-                txt = strip_lean_comments(open(fp).read())
-                for m in FORBIDDEN.finditer(txt):
-                    hits.append("%s: %s" % (os.path.relpath(fp, VERIF), m.group(0).strip()))
+        fp = os.path.join(LEAN, *m.split(".")) + ".lean"
+        if not os.path.exists(fp):
+            continue
+        seen.append(m)
+        for mm in re.findall(r"^\s*(?:public\s+)?import\s+((?:SimuVerif|Driver)[\w.]*)", open(fp).read(), flags=re.M):
+            todo.append(mm)
+    return seen
+
+
+def scan_forbidden(pid=None):
+    """textual scan of the Lean sources the property depends on (its import closure; the whole
+    library when pid is None) for sorry/admit/axiom/native_decide/…  Hits inside comments are discarded."""
+    hits = []
+    if pid is None:
+        files = []
+        for d, _, fs in os.walk(LEAN):
+            if ".lake" in d:
+                continue
+            files += [os.path.join(d, f) for f in fs if f.endswith(".lean")]
+    else:
+        mods = import_closure("SimuVerif.Properties." + pid) + import_closure("Driver." + pid)
+        files = [os.path.join(LEAN, *m.split(".")) + ".lean" for m in mods]
+    for fp in sorted(set(files)):
+        txt = strip_lean_comments(open(fp).read())
+        for m in FORBIDDEN.finditer(txt):
+            hits.append("%s: %s" % (os.path.relpath(fp, VERIF), m.group(0).strip()))
     return hits
 
 
@@ -152,7 +173,7 @@ def parse_axioms(log):
     return out
 
 
-def prove(pid, theorems, namespace, extra_targets=("driver",)):
+def prove(pid, theorems, namespace, extra_targets=()):
     """translator output must already be on disk.  Builds the property module, its audit and the
     driver; returns dict(ok, obligations, discharged, failures[], axioms{}, log_tail)"""
     write_audit(pid, theorems, namespace)
@@ -169,7 +190,7 @@ def prove(pid, theorems, namespace, extra_targets=("driver",)):
             failures.append({"theorem": full, "reason": "depends on axioms %s" % ax})
         else:
             discharged += 1
-    forb = scan_forbidden()
+    forb = scan_forbidden(pid)
     for h in forb:
         failures.append({"theorem": "-", "reason": "forbidden token: " + h})
     if not ok and not failures:
